@@ -636,6 +636,20 @@ def r6_validation_first(ctx):
     for anc in [a for a in ast.walk(f.node) if isinstance(a, (ast.ListComp, ast.GeneratorExp))]:
         if contains(anc, rs):
             comp = anc
+    rs_for_el = rs
+    acc_runs_name = None
+    if comp is None:
+        # `runs = []; for el in entries: r = self._run_single_pipeline(el, ..); runs.append(r)` is the same comprehension
+        from sa.astutil import accumulator_comp
+
+        for nm_ in sorted({t_.id for st_ in ast.walk(f.node) if isinstance(st_, (ast.Assign, ast.AnnAssign)) for t_ in (st_.targets if isinstance(st_, ast.Assign) else [st_.target]) if isinstance(t_, ast.Name)}):
+            c_ = accumulator_comp(f.node, nm_)
+            if isinstance(c_, ast.ListComp):
+                inner = [x for x in ast.walk(c_.elt) if isinstance(x, ast.Call) and call_name(x).endswith("_run_single_pipeline")]
+                if inner:
+                    comp, rs_for_el = c_, inner[0]
+                    acc_runs_name = nm_
+                    break
     ok, why = False, "runs are not produced by a plain comprehension over all entries"
     if comp is not None and len(comp.generators) == 1:
         gen = comp.generators[0]
@@ -643,7 +657,7 @@ def r6_validation_first(ctx):
         core = src
         while isinstance(core, ast.Call) and call_name(core) in ("tqdm", "list", "tuple", "enumerate") and core.args:
             core = core.args[0]
-        el = rs.args[0] if rs.args else kw(rs, "param_item")
+        el = rs_for_el.args[0] if rs_for_el.args else kw(rs_for_el, "param_item")
         ok = not gen.ifs and not order_breakers(src) and el is not None and dotted(el) == dotted(gen.target)
         pm = [c for c in ast.walk(core) if isinstance(c, ast.Call) and isinstance(c.func, ast.Attribute) and c.func.attr == "get_parameters_item"]
         defs = local_defs(f, dotted(core) or "")
@@ -659,17 +673,21 @@ def r6_validation_first(ctx):
     if ok and comp is not None:
         from sa.paths import enumerate_paths
 
+        # the statements of the sequential branch from the production of the runs onwards
         rs_stmt = enclosing_stmt(rs)
-        blk = getattr(rs_stmt, "_parent", None)
+        start_ = enclosing_loop(rs) if isinstance(enclosing_loop(rs), ast.For) else rs_stmt
+        blk = getattr(start_, "_parent", None)
         body = None
-        for fld in ("body", "orelse"):
+        for fld in ("body", "orelse", "finalbody"):
             lst = getattr(blk, fld, None)
-            if isinstance(lst, list) and rs_stmt in lst:
-                body = lst[lst.index(rs_stmt):]
+            if isinstance(lst, list) and start_ in lst:
+                body = lst[lst.index(start_):]
         runs_name = None
-        if isinstance(rs_stmt, (ast.Assign, ast.AnnAssign)):
+        if isinstance(rs_stmt, (ast.Assign, ast.AnnAssign)) and not isinstance(enclosing_loop(rs), ast.For):
             t_ = rs_stmt.targets[0] if isinstance(rs_stmt, ast.Assign) else rs_stmt.target
             runs_name = t_.id if isinstance(t_, ast.Name) else None
+        if runs_name is None:
+            runs_name = acc_runs_name
         res_names = {dotted(getattr(enclosing_stmt(m_), "targets", [None])[0]) if isinstance(enclosing_stmt(m_), ast.Assign) else dotted(getattr(enclosing_stmt(m_), "target", None)) for m_ in mer}
         res_names.discard(None)
         if body and runs_name and len(res_names) == 1:
